@@ -5,6 +5,7 @@
                    --witness replay/known/C05-open-interval.json --predicate c05OpenInterval \
                    --what "an empty open interval (x, x) is accepted by the refinement builder"
   tools/kf.py fix  --id C05-open-interval --commit <hash>
+  tools/kf.py reopen --id ...      (a withdrawn repair)
   tools/kf.py rm   --id ...
   tools/kf.py list
 
@@ -16,7 +17,7 @@ PATH = os.path.join(ROOT, "known_findings.json")
 
 def main():
     ap = argparse.ArgumentParser()
-    ap.add_argument("cmd", choices=["add", "fix", "rm", "list"])
+    ap.add_argument("cmd", choices=["add", "fix", "reopen", "rm", "list"])
     for k in ("id", "property", "facet", "witness", "predicate", "what", "commit"):
         ap.add_argument("--" + k)
     a = ap.parse_args()
@@ -46,6 +47,13 @@ def main():
             cur[0]["status"] = "fixed"
             cur[0]["commit"] = a.commit
             cur[0]["record"] = "fixed: property=%s %s %s" % (cur[0]["property"], a.commit, cur[0]["what"])
+        elif a.cmd == "reopen":
+            # a repair that was withdrawn (the commit no longer exists in /repo)
+            if not cur:
+                sys.exit("unknown id")
+            cur[0]["status"] = "open"
+            cur[0].pop("commit", None)
+            cur[0].pop("record", None)
         elif a.cmd == "rm":
             fs[:] = [f for f in fs if f["id"] != a.id]
         fs.sort(key=lambda f: f["id"])
